@@ -5,7 +5,7 @@
       pkg/slayers/path/hopfield.go    ExpTimeToDuration / ExpTimeFromDuration
       pkg/slayers/path/mac.go         MACInput
       pkg/segment/seg.go              AddASEntry (what is signed), Validate
-    The MAC is a parameter ([mac : bytes -> option bytes]; [None] = the table supplied by
+    The MAC is an argument ([mac : bytes -> option bytes]; [None] = the table supplied by
     the runner has no entry).  Times are integers: nanoseconds for instants and
     durations, seconds for the segment timestamp.  Definitions only. *)
 From Coq Require Import List NArith ZArith Bool.
